@@ -498,6 +498,10 @@ def pconn_cases(rng, paths, n_paths, n_random):
                       "rchunks": [1, 1, 2, 1 << 20], "rcap": 65535, "tag": "writeto wb=%d" % wb})
         cases.append({"pk": [], "writes": [STUN_FRAME], "trunc": 0, "wb": wb, "rb": 8, "reply": [8191, 8192, 1],
                       "rchunks": [1 << 20] * 4, "rcap": 65535, "tag": "writeto-mtu wb=%d" % wb})
+    # the peer stalls while replies are written into a small write buffer: what is refused leaves nothing on the wire
+    for wb, rep in ((3000, [700] * 8), (5000, [1200] * 7), (2500, [700, 300, 900, 500, 700, 100, 800, 40, 1300]), (1200, [1100, 30, 30, 1100, 8])):
+        cases.append({"pk": [], "writes": [STUN_FRAME], "trunc": 0, "wb": wb, "rb": 8, "reply": rep, "stall": True,
+                      "rchunks": [1 << 20] * 4, "rcap": 65535, "tag": "writeto-stall wb=%d" % wb})
     cases.append({"pk": [], "writes": [STUN_FRAME], "trunc": 0, "wb": 0, "rb": 8, "reply": [8193, 65535, 3],
                   "rchunks": [1 << 20] * 4, "rcap": 65535, "tag": "writeto-big wb=0"})
     cases.append({"pk": [], "writes": [STUN_FRAME], "trunc": 0, "wb": 0, "rb": 8, "reply": [65541],
@@ -976,6 +980,14 @@ MUX_DIRECTED = [
      "acts": [{"ev": "Dial", "c": 1, "w": True}, {"ev": "Dial", "c": 2, "w": True}, {"ev": "Dial", "c": 3, "w": True},
               {"ev": "Advance", "w": True}, {"ev": "Send", "c": 3, "w": True}, {"ev": "Advance", "w": True},
               {"ev": "Get", "u": "u1", "w": True}, {"ev": "Advance", "w": True}, {"ev": "Get", "u": "u9", "w": True}]},
+    {"beh": ["known", "known", "silent"], "rb": 1, "later": 2, "tag": "directed adoption then a second connection of the same ufrag",
+     "acts": [{"ev": "Dial", "c": 1, "w": True}, {"ev": "Send", "c": 1, "w": True}, {"ev": "Get", "u": "u1", "w": True},
+              {"ev": "Dial", "c": 2, "w": True}, {"ev": "Send", "c": 2, "w": True}, {"ev": "Advance", "w": True}, {"ev": "Advance", "w": True},
+              {"ev": "Send", "c": 1, "w": True}, {"ev": "Reply", "h": 1, "c": 2, "w": True}, {"ev": "Advance", "w": True}, {"ev": "Send", "c": 2, "w": True}]},
+    {"beh": ["unknown", "unknown", "silent"], "rb": 1, "later": 2, "tag": "directed adoption of a provisional connection, second connection, time",
+     "acts": [{"ev": "Dial", "c": 1, "w": True}, {"ev": "Send", "c": 1, "w": True}, {"ev": "Get", "u": "u9", "w": True},
+              {"ev": "Dial", "c": 2, "w": True}, {"ev": "Send", "c": 2, "w": True}, {"ev": "Advance", "w": True}, {"ev": "Advance", "w": True},
+              {"ev": "Send", "c": 2, "w": True}, {"ev": "Reply", "h": 1, "c": 1, "w": True}]},
     {"beh": ["known", "oversize", "nouser"], "rb": 1, "later": 1, "tag": "directed close with clients in every phase",
      "acts": [{"ev": "Dial", "c": 1, "w": True}, {"ev": "Dial", "c": 2, "w": True}, {"ev": "Dial", "c": 3, "w": False},
               {"ev": "Close", "w": False}]},
